@@ -81,8 +81,25 @@ def sized_value(s, defs, n, salt):
     return go({"k": "struct", "ptr": False, "s": s}, 3, salt)
 
 
+def span_model(work, res, quick):
+    """exhaustive TLC run of the allocator model"""
+    import os
+    d = work.sub("span")
+    cfg = "SPECIFICATION Spec\nCONSTANT MaxReq = %d\nINVARIANT Aligned\nINVARIANT InBlock\nINVARIANT Disjoint\nCHECK_DEADLOCK FALSE\n" % (3 if quick else 4)
+    out, st = vlib.tlc(d, "Span", cfg, workers=8, timeout=1500, heap="10g")
+    if st.get("exit") != 0 or "No error has been found" not in out:
+        keep = os.path.join(vlib.VERIF, "work", "last-span-failure.txt")
+        open(keep, "w").write(out[-20000:])
+        raise vlib.MachineryError("Span.tla: TLC reports a problem in the allocator model (a lead, not a verdict); see " + keep)
+    res.tlc_states += st.get("distinct", 0)
+    res.tlc_transitions += st.get("generated", 0)
+    res.extra["span_model"] = {"max_requests": 3 if quick else 4, "distinct_states": st.get("distinct"), "generated": st.get("generated"),
+                               "invariants": ["Aligned", "InBlock", "Disjoint"], "result": "hold"}
+
+
 def run06(prop, tier, seed, work):
     res = suite.Result(prop, tier, seed)
+    span_model(work, res, tier == "quick")
     rng = random.Random(seed * 5003 + 19)
     quick = tier == "quick"
     defs = mem_universe()
@@ -102,7 +119,7 @@ def run06(prop, tier, seed, work):
     nh = 40 if quick else 400
     for h in range(nh):
         (ty, m) = allm[h % len(allm)]
-        steps = [{"op": "decode", "ty": ty, "in": m, "dest": "fresh"}, {"op": "walk", "objs": [0]}]
+        steps = [{"op": "decode", "ty": ty, "in": m, "dest": "fresh", "hooks": True}, {"op": "walk", "objs": [0]}]
         main = 0            # step index of the decode that last filled the main object
         kept = []           # other objects still alive (besides main)
         plan = rng.sample(["overwrite", "more", "gc", "more", "gc", "reuse"], rng.randrange(2, 7))
@@ -112,7 +129,7 @@ def run06(prop, tier, seed, work):
                 steps.append({"op": "clone", "obj": main})
                 ck = len(steps) - 1
                 (t2, m2) = rng.choice([x for x in allm if x[0] == ty])
-                steps.append({"op": "decode", "ty": ty, "in": m2, "dest": "into", "obj": main})
+                steps.append({"op": "decode", "ty": ty, "in": m2, "dest": "into", "obj": main, "hooks": True})
                 main = len(steps) - 1
                 steps.append({"op": "recheck", "obj": ck, "after": "reuse"})
                 kept.append(ck)
@@ -121,7 +138,7 @@ def run06(prop, tier, seed, work):
                 steps.append({"op": "recheck", "obj": main, "after": "overwrite"})
             elif a == "more":
                 (t2, m2) = rng.choice(allm)
-                steps.append({"op": "decode", "ty": t2, "in": m2, "dest": "fresh"})
+                steps.append({"op": "decode", "ty": t2, "in": m2, "dest": "fresh", "hooks": True})
                 kept.append(len(steps) - 1)
                 if rng.random() < 0.4:
                     steps.append({"op": "drop", "obj": kept.pop()})
